@@ -94,6 +94,7 @@ type Interp struct {
 	sink     *Sink
 	onceInit map[*Value]bool
 	lastFn    *ssa.Function
+	lastFrame *frame
 	lastInstr ssa.Instruction
 }
 
@@ -555,7 +556,7 @@ func (in *Interp) callPkgFunc(caller *frame, pkgPath, name string, args ...Value
 
 func (in *Interp) step(fr *frame, instr ssa.Instruction) {
 	in.fnCount[fr.fn]++
-	in.lastFn, in.lastInstr = fr.fn, instr
+	in.lastFn, in.lastInstr, in.lastFrame = fr.fn, instr, fr
 	if in.p != nil && in.initing == 0 {
 		in.p.steps++
 		if in.p.steps > in.cfg.MaxSteps {
@@ -1431,7 +1432,15 @@ func (p *pathState) finish(in *Interp, r any) {
 	case Unsupported:
 		msg := e.Msg
 		if in.lastFn != nil && in.lastInstr != nil {
-			msg += " [in " + in.lastFn.String() + " at " + in.posStr(in.lastInstr.Pos()) + "]"
+			msg += " [in " + in.lastFn.String() + " at " + in.posStr(in.lastInstr.Pos())
+			n := 0
+			for f := in.lastFrame; f != nil && n < 6; f = f.caller {
+				if f.fn != in.lastFn && !strings.HasPrefix(f.fn.String(), "syscall.") && !strings.HasPrefix(f.fn.String(), "os.") && !strings.HasPrefix(f.fn.String(), "(*os.") {
+					msg += " < " + f.fn.String()
+					n++
+				}
+			}
+			msg += "]"
 		}
 		p.end = pathEnd{kind: "unsupported", msg: msg}
 	case goPanic:
